@@ -118,3 +118,55 @@ def replay_normalise(p) -> str:
     if any(x < 0 for x in q) or abs(sum(q) - 1) > 1e-9:
         return f"input {list(p)} accepted, stored probabilities {q}"
     return ""
+
+
+def c15_history(n: int, i: int, p0: int, p1: int) -> str:
+    """The string-keyed and integer-indexed frequency views of one subcircuit stay consistent over a history:
+    read the views, record more readouts (second execution of the same job), read them again."""
+    import jaqalpaq.emulator.backend as backend
+    from jaqalpaq.emulator.unitary import UnitarySerializedEmulator
+    from jaqalpaq.core.algorithm import expand_macros, fill_in_let, expand_subcircuits
+    sx = ["circuit", ["register", "r", n], ["loop", 2, ["sequential_block", ["gate", "prepare_all"], ["gate", "g1", ("array_item", "r", i)], ["gate", "measure_all"]]]]
+    picks = [p0, p1]
+    calls = []
+
+    def choice(m, p=None):
+        k = picks[len(calls) % 2] % m
+        tries = 0
+        while p is not None and not (p[k] > 0) and tries < m:
+            k = (k + 1) % m
+            tries += 1
+        calls.append(k)
+        return k
+
+    old = backend.choice
+    backend.choice = choice
+    try:
+        c = build(sx, inject_pulses=NATIVE)
+        job = UnitarySerializedEmulator()(expand_macros(fill_in_let(expand_subcircuits(c))))
+        r1 = job.execute()
+        sc = r1.subcircuits[0]
+        first_str = dict(sc.relative_frequency_by_str)
+        first_int = [float(x) for x in sc.relative_frequency_by_int]
+        r2 = job.execute()
+        second_str = dict(sc.relative_frequency_by_str)
+        second_int = [float(x) for x in sc.relative_frequency_by_int]
+        nread = len(sc.readouts)
+    except JaqalError:
+        return "~rejected"
+    except Exception as ex:
+        return f"non-JaqalError escaped: {exc(ex)}"
+    finally:
+        backend.choice = old
+    for label, sv, iv, total in (("first", first_str, first_int, 2), ("second", second_str, second_int, 4)):
+        if sum(iv) != total:
+            return f"{label} read: integer view counts {sum(iv)} readouts, expected {total}"
+        for v in range(1 << n):
+            if sv[_bits(v, n)] != iv[v]:
+                return f"{label} read: string view {sv[_bits(v, n)]} != integer view {iv[v]} at outcome {v}"
+    if nread != 4:
+        return f"{nread} readouts recorded, expected 4"
+    for v in range(1 << n):
+        if second_int[v] != sum(1 for k in calls if k == v):
+            return f"relative frequency of {v} is {second_int[v]}, sampled {sum(1 for k in calls if k == v)} times"
+    return ""
